@@ -54,7 +54,7 @@ def call(A, J):
         return "err", classify_exc(e)
 
 
-def run_history(ctx: Ctx, mats, m, k, hist, max_norm):
+def run_history(ctx: Ctx, mats, m, k, hist, max_norm, proportional=frozenset()):
     """hist: tuple of matrix indices or 'r' (reset)"""
     rp = {"n_tasks": m, "update_weights_every": k, "max_norm": max_norm, "history": list(hist),
           "matrices": [M.tolist() for M in mats]}
@@ -68,6 +68,7 @@ def run_history(ctx: Ctx, mats, m, k, hist, max_norm):
     outs, plains = [], []
     ci = 0
     recompute_mats = []      # (segment id, matrix idx) for the sub-sampled twin
+    prev_rec = None          # (segment, matrix idx, met its own Nash condition) of the previous scheduled recomputation
     seg = 0
     for pos, h in enumerate(hist):
         if h == "r":
@@ -90,6 +91,26 @@ def run_history(ctx: Ctx, mats, m, k, hist, max_norm):
                           {**rp, "call": ci})
             return False
         invoked, sym = rep[ci][0] == "true", tuple(rep[ci][1])
+        # (v) a scheduled recomputation is computed FROM THE MATRIX OF THAT CALL.  Every sub-problem handed to the solver
+        #     constrains alpha_i (J J^T alpha)_i >= 1 for that matrix, and at the bargaining solution the products are 1
+        #     (measured on the unchanged tree: 1 ± 2e-6 whenever the solver moves at all).  For a matrix PROPORTIONAL to the one
+        #     of the previous recomputation (c J after J: same normalised Gramian, solution alpha / c) the warm start is an interior
+        #     point, so the solver cannot be excused: weights carried over instead of recomputed miss the products by c^2.
+        #     (A solver that never leaves the starting point — legal on hostile matrices — is recognised by the PREVIOUS
+        #     recomputation not meeting its own condition, and nothing is concluded then.)
+        if invoked and niter >= 3:
+            prod = wp * ((J @ J.T) @ wp)
+            lo, hi = float(prod.min()), float(prod.max())
+            good = 0.99 <= lo and hi <= 1.01
+            if prev_rec is not None and prev_rec[0] == seg and prev_rec[2] and (prev_rec[1], h) in proportional:
+                ctx.count("nash_condition_checked_on_proportional_recomputation")
+                if not (0.5 <= lo and hi <= 2.0):
+                    ctx.violation(f"call #{ci} is a scheduled recomputation on matrix {h} = c * matrix {prev_rec[1]} (the matrix of the "
+                                  f"previous recomputation, whose weights met alpha_i (G alpha)_i = 1), but its weights {wp.tolist()} "
+                                  f"give alpha_i (G alpha)_i in [{lo:.4g}, {hi:.4g}] for ITS matrix: they were not recomputed from it",
+                                  {**rp, "call": ci})
+                    return False
+            prev_rec = (seg, h, good)
         outs.append((sym, w, J))
         plains.append((sym, wp, invoked, seg, h))
         # (i) reset() means fresh
@@ -169,6 +190,19 @@ def main(ctx: Ctx):
                          sample={"n_tasks": m, "update_weights_every": k, "history": list(h), "max_norm": mx})
                 if not ok:
                     break
+    # alphabets with PROPORTIONAL matrices (J, cJ): same normalised Gramian, different bargaining solution (alpha / c)
+    for m in (2, 3):
+        for rep_ in range(2 if quick else 6):
+            base = alphabet(rng, m, 2)
+            mats = [base[0], base[0] * rng.choice([0.25, 4.0, 10.0]), base[1]]
+            hists = [h for n in range(2, L + 1) for h in itertools.product(symbols, repeat=n) if h[0] != "r"]
+            for k in (1, 2):
+                for h in rng.sample(hists, 8 if quick else 40):
+                    ok = run_history(ctx, mats, m, k, h, rng.choice([1.0, 0.0, 50.0]), proportional=frozenset({(0, 1), (1, 0)}))
+                    ctx.case(("proportional", m, k, h, rep_), nontrivial=True)
+                    ctx.count("proportional_alphabet_histories")
+                    if not ok:
+                        break
     # alphabets containing matrices on which the solver's first sub-problem is ill-posed
     for m in ((2, 3) if quick else (2, 3, 4)):
         for rep_ in range(2 if quick else 5):
